@@ -124,6 +124,31 @@ def run_deductive(pid, plan, repo, tier, seed, replay_dir):
     functions = []
     assumptions = set()
     refuted_names = []
+    # ---- later stages for what z3 / cvc5 left open: (3) sound quantifier-free instantiation, (4) one retry with another seed and three
+    # times the budget.  The retries run in parallel; when many obligations are open at once (a changed function, not a busy machine)
+    # the retry stage is skipped: it only exists to absorb load-dependent timeouts.
+    open_rs = [r for o in outs if o["status"] != "unsupported" for r in o["results"] if r["status"] == "unknown"]
+    stage3 = {}
+    max_relax = int(os.environ.get("PYVC_MAX_RELAX", "24"))
+    for k, r in enumerate(open_rs):
+        ob = r["_oblig"]
+        if k >= max_relax:
+            stage3[id(r)] = ("unknown", "instantiation stage skipped: more than %d obligations open in this run" % max_relax)
+            continue
+        try:
+            stage3[id(r)] = solve.relax_check(ob.hyps, ob.goal)
+        except Exception as e:  # noqa
+            stage3[id(r)] = ("unknown", "relaxation failed: %s" % e)
+    still = [r for r in open_rs if stage3[id(r)][0] != "discharged"]
+    if still and len(still) <= int(os.environ.get("PYVC_MAX_RETRIES", "16")):
+        jobs = [("(set-option :smt.random_seed 7)\n" + solve.to_smt2(r["_oblig"].hyps, r["_oblig"].goal), 3 * solve.Z3_TIMEOUT_MS) for r in still]
+        try:
+            res4 = solve._pmap(solve._retry_work, jobs, True)
+        except Exception:  # noqa
+            res4 = [("unknown", "z3", 0.0, "")] * len(jobs)
+        for r, (st4, be4, dt4, info4) in zip(still, res4):
+            if st4 == "discharged":
+                stage3[id(r)] = ("discharged", "retry with seed 7 / 3x budget (%.1fs)" % dt4)
     for o in outs:
         functions.append(dict(function=o["function"], status=o["status"], obligations=len(o["results"]), paths=o["n_paths"],
                               fragment=o.get("fragment"), lifted_asserts=o.get("lifted_asserts"), wall_s=o.get("wall_s"),
@@ -167,22 +192,7 @@ def run_deductive(pid, plan, repo, tier, seed, replay_dir):
                     violations.append((rp, "obligation %s refuted by %s (%s)" % (r["name"], r["backend"], nat.get("status")), "no-failing-input-found"))
             else:
                 # not decided by z3 / cvc5.  Stage 3: sound quantifier-free instantiation (may discharge, may give a candidate model)
-                ob = r["_oblig"]
-                st3, info3 = ("unknown", "")
-                if r["status"] == "unknown":
-                    try:
-                        st3, info3 = solve.relax_check(ob.hyps, ob.goal)
-                    except Exception as e:  # noqa
-                        st3, info3 = "unknown", "relaxation failed: %s" % e
-                    if st3 != "discharged":
-                        # one retry with a different random seed and three times the budget (guards against a busy machine)
-                        try:
-                            smt = "(set-option :smt.random_seed 7)\n" + solve.to_smt2(ob.hyps, ob.goal)
-                            st4, be4, dt4, info4 = solve._z3_check(smt, 3 * solve.Z3_TIMEOUT_MS)
-                            if st4 == "discharged":
-                                st3, info3 = "discharged", "retry with seed 7 / 3x budget (%.1fs)" % dt4
-                        except Exception as e:  # noqa
-                            pass
+                st3, info3 = stage3.get(id(r), ("unknown", ""))
                 if st3 == "discharged":
                     n_dis += 1
                     be = "z3-retry" if info3.startswith("retry") else "z3-instantiation"
